@@ -2,6 +2,7 @@ import Lean.Data.Json
 import GsModel.Diff.Json
 import GsModel.Ops.Regen
 import GsModel.Text.Escape
+import GsModel.Ops.Gather
 /-
   Model driver: one JSON request per line on stdin, one JSON response per line on stdout.
   Imports no Mathlib (compiled as `lean_exe gsdriver`).
@@ -63,6 +64,14 @@ def handleEscape (j : Json) : Json :=
     ("eval", match ev with | some v => Json.str v | none => Json.null),
     ("blockEnd", Json.bool (Text.hasBlockEnd out)), ("inLine", Json.bool (Text.inLineComments out))]
 
+/-- {"op":"ops.gather","ops":[{key,method,path,id}..]} (already in sorted order) → {"kept":[[name,method,path]..]} -/
+def handleGather (j : Json) : Json :=
+  let ops : List Gather.Op := (Diff.J.arr j "ops").map (fun o =>
+    { key := Diff.J.str o "key", method := Diff.J.str o "method", path := Diff.J.str o "path", id := Diff.J.str o "id" })
+  let out := Gather.gather ops
+  Json.mkObj [("r", Json.str "ok"),
+    ("kept", Json.arr (out.map (fun kv => Json.arr #[Json.str kv.1, Json.str kv.2.method, Json.str kv.2.path])).toArray)]
+
 def handle (line : String) : Json :=
   match Json.parse line with
   | .error e => Json.mkObj [("r", Json.str "bad-input"), ("why", Json.str e)]
@@ -72,6 +81,7 @@ def handle (line : String) : Json :=
     | "diff.execute" => handleExecute j
     | "regen.exec" => handleRegen j
     | "text.escape" => handleEscape j
+    | "ops.gather" => handleGather j
     | op => Json.mkObj [("r", Json.str "bad-op"), ("op", Json.str op)]
 
 partial def loop (h : IO.FS.Stream) (out : IO.FS.Stream) : IO Unit := do
